@@ -69,6 +69,7 @@ def guard_on():
 
 
 def _fail(mode):
+    _emit({'ev': 'fault', 'mode': mode})
     if mode == 'kill':
         os.kill(os.getpid(), signal.SIGKILL)
         time.sleep(5)
@@ -270,7 +271,8 @@ def settle(timeout=30.0):
     {stage: [exit codes in dispatch order]} (None = never started / still alive)."""
     out = {}
     t_end = time.time() + timeout
-    for st, procs in STATE['procs'].items():
+    for st in (STATE['plan'] or {}).get('stages', ()):
+        procs = STATE['procs'][st]
         codes = []
         for p in procs:
             if isinstance(p, _FakeProcess):
